@@ -1312,8 +1312,11 @@ Value for timeout (%" PRIi64 ") is out of range.", t->timeout.d);
 			xt.errmsz = z;
 			goto fatal;
 		}
-		/* otherwise */
-		timeo = t->timeout.d;
+		/* otherwise, the timeout is in milliseconds, alarm(2) wants
+		 * seconds, round up so that a short limit isn't no limit */
+		with (int64_t s = t->timeout.d / 1000 + !!(t->timeout.d % 1000)) {
+			timeo = s < (int64_t)UINT_MAX ? (unsigned int)s : UINT_MAX;
+		}
 		goto timeo;
 
 	case VTOD_TYP_DUE: {
